@@ -81,7 +81,7 @@ type Query { find(f: Filter): String }`
 		{Name: "list", Type: model.ListOf(model.NonNullOf(model.Named("Filter")))},
 	}})
 	done := 0
-	for round := 0; round < c.N(150, 2500) && !c.TooMany(); round++ {
+	for round := 0; round < c.N(150, 30000) && !c.TooMany(); round++ {
 		r := c.Rand(1400000 + round)
 		// a Filter value: depth-bounded, one defect at most (kind 0 = none)
 		var mk func(depth int, defect *int, json bool) interface{}
